@@ -167,11 +167,57 @@ func (a *An) boundsTable(rule string) {
 		return okAny
 	}
 	seen := map[string]int{}
+	// reviewed multiplicities: how often each keyed expression occurs on the reviewed tree (more occurrences of the same
+	// shape in the same function are new sites); keys without an expression (inlined callee bodies) vary with inlining
+	maxCount := map[string]int{
+		"calculateDHSessionKeys|IsSliceInBounds|h(_,_,_)[:_.keyLength()]": 2,
+		"plainDataMsg.serialize|IsInBounds|_.tlvs[_]":                     3,
+		"*keyManagementContext.wipe|IsInBounds|_.oldMACKeys[_]":           2,
+		"*counterHistory.wipe|IsInBounds|_.counters[_]":                   2,
+		"*macKeyHistory.wipe|IsInBounds|_.items[_]":                       2,
+	}
 	for _, s := range sites {
 		key := s.Func + "|" + s.Kind + "|" + s.Expr
 		e, ok := boundsTable[key]
 		if !ok {
 			e, ok = boundsTable[s.Func+"|"+s.Kind+"|*"]
+		}
+		if !ok && s.Expr == "" {
+			// the inlined body of a new single-use helper: its sites are judged in the helper itself
+			for _, g := range a.C.FuncSeq {
+				if a.C.isNew(g) && a.C.owner(g) != g && a.bceOwnerOf(g) == s.Func {
+					e, ok = boundsEntry{"inlined body of the new helper " + a.C.Name(g) + " (judged there)", nil}, true
+				}
+			}
+		}
+		if !ok {
+			// a site inside a new single-use helper is a site of the function the helper was taken from; operands that
+			// were fields of a local there are plain parameters here
+			if owner := a.bceOwner(s.Func); owner != "" {
+				want := stripSelectors(s.Expr)
+				var cands []string
+				for k := range boundsTable {
+					parts := strings.SplitN(k, "|", 3)
+					if len(parts) == 3 && parts[0] == owner && parts[1] == s.Kind && parts[2] != "" && stripSelectors(parts[2]) == want {
+						cands = append(cands, k)
+					}
+				}
+				sort.Strings(cands)
+				for _, k := range cands {
+					cand := boundsTable[k]
+					all := true
+					for _, need := range cand.needs {
+						if !posFacts(s, need) {
+							all = false
+						}
+					}
+					if all {
+						e, ok = cand, true
+						key = k
+						break
+					}
+				}
+			}
 		}
 		if !ok {
 			// patterns that are in range wherever they occur
@@ -187,6 +233,15 @@ func (a *An) boundsTable(rule string) {
 			okey = fmt.Sprintf("%s#%d", key, seen[key])
 		}
 		pos := fmt.Sprintf("%s:%d", s.File, s.Line)
+		if ok && s.Expr != "" {
+			lim := maxCount[key]
+			if lim == 0 {
+				lim = 1
+			}
+			if _, wild := boundsTable[s.Func+"|"+s.Kind+"|*"]; !wild && seen[key] > lim {
+				ok = false
+			}
+		}
 		if !ok {
 			a.R.Viol(rule, "site|"+okey, "every bounds check the compiler cannot discharge is a reviewed one", pos,
 				"new undischarged "+s.Kind+" in "+s.Func+" ("+s.Expr+"): the compiler can no longer prove this index/slice in range — typically a length test was removed or weakened; on attacker-controlled data this is a crash")
@@ -819,4 +874,64 @@ func (a *An) akeStateInvariant(rule string) {
 		}
 	}
 	R.Check(nret >= 15 && nw >= 1, rule, "sites", "returns of non-initial states and wipes before them found", "", fmt.Sprintf("%d returns, %d wipe/return pairs", nret, nw))
+}
+
+// bceOwner: for a compiler-style function name ("*T.m", "T.m", "f", "sexp.f") of a new single-use helper, the
+// compiler-style name of the function it belongs to; "" otherwise.
+func (a *An) bceOwner(name string) string {
+	canon := func(n string) string {
+		pre := ""
+		if strings.HasPrefix(n, "sexp.") {
+			pre, n = "sexp.", n[5:]
+		}
+		if i := strings.LastIndex(n, "."); i >= 0 {
+			return pre + "(" + n[:i] + ")" + n[i:]
+		}
+		return pre + n
+	}
+	back := func(n string) string {
+		pre := ""
+		if strings.HasPrefix(n, "sexp.") {
+			pre, n = "sexp.", n[5:]
+		}
+		if strings.HasPrefix(n, "(") {
+			if i := strings.Index(n, ")"); i > 0 {
+				return pre + n[1:i] + n[i+1:]
+			}
+		}
+		return pre + n
+	}
+	f, ok := a.C.Fn(canon(name))
+	if !ok || !a.C.isNew(f) {
+		return ""
+	}
+	o := a.C.owner(f)
+	if o == f {
+		return ""
+	}
+	return back(a.C.Name(o))
+}
+
+// bceOwnerOf: compiler-style name of the function a new helper belongs to.
+func (a *An) bceOwnerOf(g *ssa.Function) string {
+	n := a.C.Name(a.C.owner(g))
+	pre := ""
+	if strings.HasPrefix(n, "sexp.") {
+		pre, n = "sexp.", n[5:]
+	}
+	if strings.HasPrefix(n, "(") {
+		if i := strings.Index(n, ")"); i > 0 {
+			return pre + n[1:i] + n[i+1:]
+		}
+	}
+	return pre + n
+}
+
+var selectorRe = regexp.MustCompile(`_(\.[A-Za-z_][A-Za-z0-9_]*)+`)
+
+// stripSelectors: "_.tlvValue[:_]" and "_[:_]" denote the same shape once a field of a local became a parameter.
+func stripSelectors(e string) string {
+	return selectorRe.ReplaceAllStringFunc(e, func(m string) string {
+		return "_"
+	})
 }
